@@ -237,10 +237,13 @@ def build_stmt(slot, d, t, o):
     if slot == 22:  # window function in the select list, aggregate filter in HAVING
         return (base.select(fn.Max(F(t, "a")), fn.Coalesce(F(t, "b"), F(o, "c")))
                 .groupby(F(o, "b")).having(fn.Sum(F(t, "a")) > 1))
+    if slot == 23:  # conflict target with its own WHERE + DO UPDATE ... WHERE
+        return (Q.into(t).insert(1, 2).on_conflict(F(t, "a")).where(F(t, "e") > 0).do_update(F(t, "b"), F(t, "c") + 1)
+                .where(F(t, "d") == 1))
     raise AssertionError(slot)
 
 
-NSLOT = 23
+NSLOT = 24
 
 
 @harness(
@@ -249,7 +252,7 @@ NSLOT = 23
     bounds={"quick": {"L": 1}, "thorough": {"L": 2}},
     timeout={"quick": 300, "thorough": 1500},
     witness=[dict(slot=0, d=0, p=0, s="n"), dict(slot=11, d=2, p=3, s="n")],
-    doc="23 clause slots of SELECT / INSERT / UPDATE / DELETE / upsert statements, generic and PostgreSQL builders, x "
+    doc="24 clause slots of SELECT / INSERT / UPDATE / DELETE / upsert statements, generic and PostgreSQL builders, x "
         "table-pair shapes 0..3 x any new table name",
 )
 def c16_statements(slot: int, d: int, p: int, s: str) -> int:
